@@ -141,6 +141,40 @@ def airy(r: random.Random, text: str) -> str | None:
 	return cand
 
 
+def continued(r: random.Random, text: str) -> str | None:
+	"""The same sentence with line breaks inside brackets (after an opening bracket or a comma), the continuation lines indented by
+	something that is not the block unit of the text: CPython's ast must stay the same."""
+	out_lines = []
+	changed = False
+	for line in text.rstrip('\n').split('\n'):
+		pad = line[:len(line) - len(line.lstrip('\t'))]
+		toks = line.strip('\t').split(' ')
+		depth = 0
+		out = ''
+		for i, tok in enumerate(toks):
+			out += tok
+			if tok in ('(', '[', '{'):
+				depth += 1
+			elif tok in (')', ']', '}'):
+				depth -= 1
+			if i + 1 < len(toks):
+				if depth > 0 and tok in ('(', '[', '{', ',') and toks[i + 1] not in (')', ']', '}') and r.random() < 0.5:
+					out += '\n' + pad + r.choice(['      ', '\t\t\t', '  ', ' ', '\t \t'])
+					changed = True
+				else:
+					out += ' '
+		out_lines.append(pad + out)
+	if not changed:
+		return None
+	cand = '\n'.join(out_lines) + '\n'
+	try:
+		if ast.dump(ast.parse(cand)) != ast.dump(ast.parse(text)):
+			return None
+	except SyntaxError:
+		return None
+	return cand
+
+
 RE_SUMMARY = re.compile(r"^pass: (\d+)/(\d+), token: (.*)\n\((\d+)\) >>> (.*)\n(.*)$", re.S)
 
 
@@ -284,6 +318,12 @@ def shard(ctx: Ctx, acc: Acc) -> None:
 		for t in FIXED + FIXED_COMPACT:
 			check_text(acc, {'text': t, 'features': ['sum:+', 'stmt:if']})
 		check_text(acc, {'text': WITNESS_WALRUS, 'features': ['walrus', 'ternary']})
+		# line breaks inside brackets in front of the first block, continuation lines indented by something else than the block unit
+		for t in ('x = f ( a ,\n      b )\nif x :\n    y = 1\n', 'x = [\n\t\t1 ,\n\t\t2\n]\nwhile x :\n\tx = g ( x )\n', 'd = {\n  "k" : 1\n}\nif d :\n\ty = 2\n\tif y :\n\t\tz = 3\n'):
+			check_text(acc, {'text': t, 'features': ['invoke', 'stmt:if', 'layout:continued']})
+		# texts outside the grammar: a '?' group taken twice
+		for t in ('x = not not not a\n', 'x = - - a\n', 'f ( a = b = 1 )\n', 'f ( * * * a )\n', 'x = ( a := b := c )\n', 'x = a not not in b\n', 'p = lambda : lambda : q\n', 'a = b = c\n'):
+			check_text(acc, {'text': t, 'features': ['outside-grammar'], 'mutation': 'fixed'})
 	n = N_SENTENCES[ctx.tier]
 	for i in range(n):
 		if not ctx.mine(i):
@@ -320,6 +360,11 @@ def shard(ctx: Ctx, acc: Acc) -> None:
 				if at is not None:
 					acc.see('layout', 'blank-and-comment-lines')
 					check_text(acc, {'text': at, 'features': sorted(g.f) + ['layout:airy']})
+			if i % 4 == 1:
+				bt = continued(r, text)
+				if bt is not None:
+					acc.see('layout', 'line-breaks-inside-brackets')
+					check_text(acc, {'text': bt, 'features': sorted(g.f) + ['layout:continued']})
 			if i % 3 == 0:
 				mt, kind = mutate(r, text)
 				if mt != text:
